@@ -8,6 +8,7 @@ import Driver.NonnegMean
 import Driver.Merge
 import Driver.Assorter
 import Driver.Status
+import Driver.IrvBallot
 open Lean Shangrla Shangrla.Drv
 
 def dispatch (g op : String) (a : Json) : R Json :=
@@ -17,6 +18,7 @@ def dispatch (g op : String) (a : Json) : R Json :=
   | "merge" => MergeH.handle op a
   | "assorter" => AssorterH.handle op a
   | "status" => StatusH.handle op a
+  | "irvballot" => IrvBallotH.handle op a
   | _ => throw s!"unknown group {g}"
 
 def handleLine (line : String) : String :=
